@@ -164,6 +164,24 @@ Theorem C07_aggregate_defs : forall (cars : list (Car (F:=R))) total loco_mass,
      sumR (map (fun c => car_davis_b c * ((car_mass_base c + car_mass_freight c) * car_n c)) cars)).
 Proof. exact aggregate_defs. Qed.
 
+(* the same with TrainConfig.train_mass given (the override REPLACES the summed mass of the cars; the locomotives' mass is
+   still added: weight = g * (override + locomotives); the weighted means are taken over the override) *)
+Theorem C07_aggregate_override_defs : forall ov (cars : list (Car (F:=R))) total loco_mass,
+  let t := aggregate_ov ov cars total loco_mass in
+  let towed := match ov with Some m => m | None => sumR (map (fun c => (car_mass_base c + car_mass_freight c) * car_n c) cars) end in
+  tp_mass_static t = towed + loco_mass /\
+  tp_length t = sumR (map (fun c => car_length c * car_n c) cars) /\
+  tp_mass_rot t = sumR (map (fun c => car_mass_rot_per_axle c * car_n c * car_axles c) cars) /\
+  tp_mass_freight t = sumR (map (fun c => car_mass_freight c * car_n c) cars) /\
+  rp_bearing (tp_rp t) = sumR (map (fun c => car_bearing_per_axle c * car_axles c * car_n c) cars) /\
+  rp_cd_area (tp_rp t) = sumR (map (fun c => car_cd_area c * car_n c) cars) /\
+  (towed <> 0 ->
+   rp_rolling (tp_rp t) * towed =
+     sumR (map (fun c => car_rolling_ratio c * ((car_mass_base c + car_mass_freight c) * car_n c)) cars) /\
+   rp_davis_b (tp_rp t) * towed =
+     sumR (map (fun c => car_davis_b c * ((car_mass_base c + car_mass_freight c) * car_n c)) cars)).
+Proof. exact aggregate_ov_defs. Qed.
+
 (* the hypotheses are satisfiable: a sorted, consistent three-entry table *)
 Example C07_tables_ok_example :
   let t := [ {| prc_offset := 0; prc_coeff := 1/100; prc_net := 10 |};
